@@ -1,10 +1,14 @@
 ------------------------------ MODULE CacheTable ------------------------------
 (***************************************************************************)
-(* The hash-indexed cache: a table of size 2^k whose slot for hash h is    *)
-(* h mod size.  A 64-bit hash is modelled as the pair <<tag, idx>> with    *)
-(* hash = tag * size + idx (tag = the bits above the index), so that the   *)
-(* model needs no 64-bit arithmetic: exhaustive configs use small integer  *)
-(* tags, recorded traces carry the tag as a decimal string.                *)
+(* The hash-indexed cache: a table of size 2^k in which every hash has ONE *)
+(* slot.  WHICH slot is not specified (the property speaks of "that        *)
+(* hash's slot"; the library happens to take the low bits).  A 64-bit hash *)
+(* is therefore modelled as the pair <<tag, idx>>: idx is the slot, tag    *)
+(* tells the hashes of one slot apart; hash 0 is <<ZeroTag, 0>>.  The      *)
+(* binding never computes idx from the hash: the harness OBSERVES which    *)
+(* hashes share a slot (write a, write b, is a gone?) on a scratch table   *)
+(* and picks / labels its hashes accordingly.  Exhaustive configs use      *)
+(* small integer tags, recorded traces carry the hash itself as the tag.   *)
 (*                                                                         *)
 (* Operational state: slot, a function from the TOUCHED indices to         *)
 (* [h, v]; an untouched slot behaves as [h |-> <<ZeroTag, 0>>, v |-> def]. *)
